@@ -205,7 +205,7 @@ Definition is_cause (c : cause) (o : option cause) : nat :=
 
 Definition responded (o : outcome) : nat := match o with Resp true _ => 1%nat | _ => 0%nat end.
 
-(* counters along a run (NilIgnore: the run never stops early) *)
+(* counters along a run *)
 Record counts := mkCounts {
   n_resp : nat; n_first : nat; n_reconnect : nat; n_subchange : nat; n_forced : nat; n_arm : nat }.
 Definition zero_counts := mkCounts 0 0 0 0 0 0.
@@ -220,7 +220,7 @@ Fixpoint count_run (st : watched) (ops : list op) (c : counts) : counts * watche
   match ops with
   | [] => (c, st)
   | o :: ops' =>
-    let '(out, st') := step NilIgnore st o in
+    let '(out, st') := step st o in
     count_run st' ops' (count_step st o out c)
   end.
 
@@ -228,9 +228,9 @@ Fixpoint count_run (st : watched) (ops : list op) (c : counts) : counts * watche
 
 (* One type t.  The client keeps its subscription S and the nonce of the last response it took;
    every subscription change and every response produce exactly one request carrying the
-   CURRENT S and that nonce.  Channels are FIFO lists.  A server answer is always sent (the
-   generator produced a response) with a non-empty nonce chosen by the environment; pushes are
-   spontaneous.  SOther = any step of another type on the same connection. *)
+   CURRENT S and that nonce.  Channels are FIFO lists.  When ShouldRespond says "answer", the
+   environment decides whether the generator produced a response (sends; pushXds returns without
+   sending when res == nil) and picks the non-empty nonce; pushes are spontaneous.  SOther = any step of another type on the same connection. *)
 Record sstate := mkS {
   s_srv : watched; s_c2s : list req; s_s2c : list N;
   s_S : list N; s_cn : N;
@@ -241,7 +241,7 @@ Record sstate := mkS {
 Inductive slabel :=
 | CSub (S' : list N)
 | CRecv (nack : option N)
-| SProc (n : N)
+| SProc (n : N) (sends : bool)   (* sends = the generator produced a response for an answered request *)
 | SPush (n : N)
 | SOther (o : op).
 
@@ -255,14 +255,16 @@ Definition sstep (t : xds_type) (s : sstate) (l : slabel) : sstate :=
     | n :: rest =>
       mkS (s_srv s) (s_c2s s ++ [mkReq t (s_S s) n e]) rest (s_S s) n (s_ln s) (s_np s)
     end
-  | SProc n =>
+  | SProc n sends =>
     match s_c2s s with
     | [] => s
     | r :: rest =>
       if n =? 0 then s else
-      match should_respond NilIgnore (s_srv s) r with
+      match should_respond (s_srv s) r with
       | (Resp true _, st') =>
-        mkS (send st' t n true) rest (s_s2c s ++ [n]) (s_S s) (s_cn s) (is_some (r_err r)) true
+        if sends
+        then mkS (send st' t n true) rest (s_s2c s ++ [n]) (s_S s) (s_cn s) (is_some (r_err r)) true
+        else mkS st' rest (s_s2c s) (s_S s) (s_cn s) (is_some (r_err r)) true   (* pushXds: res == nil, nothing sent *)
       | (_, st') =>
         mkS st' rest (s_s2c s) (s_S s) (s_cn s) (is_some (r_err r)) true
       end
@@ -276,8 +278,12 @@ Definition sstep (t : xds_type) (s : sstate) (l : slabel) : sstate :=
     end
   | SOther o =>
     if ty_eqb (op_ty o) t then s
-    else mkS (snd (step NilIgnore (s_srv s) o)) (s_c2s s) (s_s2c s) (s_S s) (s_cn s) (s_ln s) (s_np s)
+    else mkS (snd (step (s_srv s) o)) (s_c2s s) (s_s2c s) (s_S s) (s_cn s) (s_ln s) (s_np s)
   end.
+
+(* hypothesis of the record theorem: every answered request is followed by a sent response *)
+Definition sends_ok (l : slabel) : bool :=
+  match l with SProc _ sends => sends | _ => true end.
 
 Definition srun (t : xds_type) (s : sstate) (ls : list slabel) : sstate :=
   fold_left (sstep t) ls s.
@@ -302,7 +308,7 @@ Record dstate := mkD {
 Inductive dlabel :=
 | DChange (subs unsubs inits : list N)
 | DRecv (nack : option N) (subs unsubs : list N)
-| DProc (n : N) (gen : list N)
+| DProc (n : N) (gen : list N) (sends : bool)
 | DPush (n : N) (gen : list N)
 | DOther (o : op).
 
@@ -338,15 +344,17 @@ Definition dstep (t : xds_type) (s : dstate) (l : dlabel) : dstate :=
       mkD (x_srv s) (x_c2s s ++ [mkDReq t subs unsubs [] n e]) rest
           (client_apply (x_S s) subs [] unsubs) n (x_ln s) (x_ok s)
     end
-  | DProc n gen =>
+  | DProc n gen sends =>
     match x_c2s s with
     | [] => s
     | r :: rest =>
       let ok' := x_ok s && negb (dropped (x_srv s) r && carries_changes r) in
-      match should_respond_delta NilIgnore (x_srv s) r with
+      match should_respond_delta (x_srv s) r with
       | (Resp true _, st') =>
-        mkD (send_delta st' t n true (newnames_for t gen)) rest (x_s2c s ++ [n]) (x_S s) (x_cn s)
-            (is_some (d_err r)) ok'
+        if sends
+        then mkD (send_delta st' t n true (newnames_for t gen)) rest (x_s2c s ++ [n]) (x_S s) (x_cn s)
+                 (is_some (d_err r)) ok'
+        else mkD st' rest (x_s2c s) (x_S s) (x_cn s) (is_some (d_err r)) ok'
       | (_, st') => mkD st' rest (x_s2c s) (x_S s) (x_cn s) (is_some (d_err r)) ok'
       end
     end
@@ -359,7 +367,7 @@ Definition dstep (t : xds_type) (s : dstate) (l : dlabel) : dstate :=
     end
   | DOther o =>
     if ty_eqb (op_ty o) t then s
-    else mkD (snd (step NilIgnore (x_srv s) o)) (x_c2s s) (x_s2c s) (x_S s) (x_cn s) (x_ln s) (x_ok s)
+    else mkD (snd (step (x_srv s) o)) (x_c2s s) (x_s2c s) (x_S s) (x_cn s) (x_ln s) (x_ok s)
   end.
 
 Definition drun (t : xds_type) (s : dstate) (ls : list dlabel) : dstate :=
